@@ -50,7 +50,7 @@ class Buf:
         global _libc
         self.n = n
         self.ctype = ctype
-        self.can = CANARY if ctype is seq_t else ICANARY
+        self.can = CANARY if ctype is seq_t else (0xA5 if C.sizeof(ctype) == 1 else ICANARY)
         if IN_ASAN:
             if _libc is None:
                 _libc = C.CDLL(None)
